@@ -103,6 +103,25 @@ def other_level(impl, op):
     return False
 
 
+def addressed_child_exists(impl, op):
+    """does the by-name assignment address a child that is listed?  Told from the by-name indexes alone (no
+    traversal read is performed, the history stays what it is); None when it cannot be told."""
+    try:
+        el = impl.I[op[1]]
+        path = op[2]
+        for i, nm in enumerate(path):
+            cn = el.children._find_name(nm)
+            lst = el.children.indexes.get(cn, []) if cn is not None else None
+            if lst is None:
+                return None
+            if not lst:
+                return False
+            el = lst[0]
+        return True
+    except Exception:   # noqa
+        return None
+
+
 def classify(impl, op, code):
     """which family of rejected call this is (the attribute known findings are matched on)"""
     k = op[0]
@@ -121,6 +140,8 @@ def classify(impl, op, code):
     if k == 'setdatatype':
         return 'datatype-change'
     if k in ('setattr', 'setindex', 'setlistindex') and other_level(impl, op):
+        if k == 'setattr' and addressed_child_exists(impl, op) is False:
+            return 'assign-other-level-absent'     # nothing is replaced: not the F9 mechanism
         return 'replace-other-level'
     return 'other'
 
@@ -282,6 +303,20 @@ def main(argv=None):
                            ['setvalue', 0, text], ['toer7', 0]]
                     stats['message_value_histories'] += 1
                     oracle_on_history(run, v, ops, stats)
+    # an element of the other validation level assigned at the end of a chain through an ABSENT segment / field: the
+    # refusal must leave the root as it was (no promoted empty placeholder)
+    stats['absent_chain_other_level_histories'] = 0
+    for v in versions:
+        for lvl in (H.STRICT, H.TOLERANT):
+            oth = H.TOLERANT if lvl == H.STRICT else H.STRICT
+            for ops in ([['newmsg', lvl, 'ADT_A01', None], ['newfield', oth, 'PID_5', None],
+                         ['setattr', 0, ['pid', 'pid_5'], ['e', 1]], ['toer7', 0]],
+                        [['newmsg', lvl, 'ADT_A01', None], ['setattr', 0, ['evn', 'evn_2'], ['t', '20200101']],
+                         ['newfield', oth, 'PID_3', None], ['setattr', 0, ['pid', 'pid_3'], ['e', 1]], ['toer7', 0]],
+                        [['newseg', lvl, 'PID'], ['newfield', oth, 'PID_5', None],
+                         ['setattr', 0, ['pid_5'], ['e', 1]], ['toer7', 0]]):
+                stats['absent_chain_other_level_histories'] += 1
+                oracle_on_history(run, v, ops, stats)
     stats['segment_value_histories'] = stats['segment_value_rejected'] = 0
     for v in versions:
         lib = H.hl7apy.load_library(v)
